@@ -210,6 +210,16 @@ def make_sim_ec_key(real_key, entropy: Entropy, rare: dict):
     return SimECKey(real_key)
 
 
+def coordinate_matches(pn, nbytes, want) -> bool:
+    """want: 'x' | 'y' | 'x2' | 'y2' (one / two leading zero bytes) or [coord, 'lead'|'trail', byte value, count]."""
+    if isinstance(want, str):
+        want = [want[0], "lead", 0, 2 if want.endswith("2") else 1]
+    coord, where, value, count = want
+    b = (pn.x if coord == "x" else pn.y).to_bytes(nbytes, "big")
+    part = b[:count] if where == "lead" else b[-count:]
+    return part == bytes([value]) * count
+
+
 class CryptoSeam:
     """Patches the private-key loaders and the key generators."""
 
@@ -250,9 +260,7 @@ class CryptoSeam:
                 key = ec.derive_private_key(dval, curve)
                 if want and tries < 6000:
                     pn = key.public_key().public_numbers()
-                    target = pn.x if want[0] == "x" else pn.y
-                    zeros = 2 if want.endswith("2") else 1
-                    if target.bit_length() > nbytes * 8 - 8 * zeros:
+                    if not coordinate_matches(pn, nbytes, want):
                         continue
                 pn = key.public_key().public_numbers()
                 rare.setdefault("keylog", []).append(
